@@ -448,7 +448,10 @@ def run(rep: Report, tier: str) -> None:
 					conv = c.method(body.func.attr) if isinstance(body, ast.Call) and isinstance(body.func, ast.Attribute) and isinstance(body.func.value, ast.Name) and body.func.value.id in ('self', 'cls') else None
 					if conv is not None:
 						reps = [n for n in ast.walk(conv.node) if isinstance(n, ast.Call) and isinstance(n.func, ast.Attribute) and n.func.attr == 'replace' and len(n.args) >= 2 and any(isinstance(x, ast.Constant) and isinstance(x.value, str) and '\\' in x.value for a in n.args[:2] for x in ast.walk(a))]
-						scans = [n for n in ast.walk(conv.node) if isinstance(n, ast.Compare) and any(isinstance(x, ast.Constant) and x.value == '\\' for x in [n.left, *n.comparators]) and any(isinstance(x, ast.Subscript) for x in [n.left, *n.comparators])]
+						def _char(x: ast.AST) -> bool:
+							# one character of the body: `body[i]`, or a local bound to it (`char = body[index]`)
+							return isinstance(x, ast.Subscript) or (isinstance(x, ast.Name) and isinstance(deref(conv.node, x), ast.Subscript))
+						scans = [n for n in ast.walk(conv.node) if isinstance(n, ast.Compare) and any(isinstance(x, ast.Constant) and x.value == '\\' for x in [n.left, *n.comparators]) and any(_char(x) for x in [n.left, *n.comparators])]
 						key = f'concat:converter-escape-aware:{conv.name}'
 						if reps:
 							r4.violate(key, (EVAL, reps[0].lineno), f'{conv.qualname} re-escapes the body with `{unparse(reps[0])[:90]}`, a replace over the whole text: a quote that is already escaped gets a second backslash (`"x" + \'a\\"b\'` folds to `"xa\\\\"b"`, a literal that ends after the backslash), and an escaped backslash followed by a quote is mistaken for an escaped quote; the value differs from CPython\'s and is not refused', unparse(reps[0]))
@@ -488,6 +491,7 @@ def run(rep: Report, tier: str) -> None:
 		for cl, both, txt in hex_tests:
 			r4.check(both, 'integer:hex-prefix-case', (EVAL, cl.lineno), f'on_integer recognises a hexadecimal literal by `{txt}` (lower-case prefix only) while the grammar terminal HEX_NUMBER admits `0X` as well: `A = 0X1F` is decoded in base 10, the ValueError ends the run with Errors.Fatal instead of the value 31', txt)
 	rule_literalise(rep, idx)
+	rule_member_refs_only(rep, idx)
 
 
 def rule_literalise(rep: Report, idx: SourceIndex) -> None:
@@ -538,3 +542,59 @@ def rule_literalise(rep: Report, idx: SourceIndex) -> None:
 					r.ok(key, (PY2CPP, raw.lineno))
 	if n_sites == 0:
 		r.skip('evaluator-sites', (PY2CPP, 1), 'no call of evaluator.exec found in Py2Cpp')
+
+
+def rule_member_refs_only(rep: Report, idx: SourceIndex, rule_id: str = 'C17/only-member-references-are-literalised') -> None:
+	"""`<expr>.value` / `<expr>.name` can be replaced by a constant only when <expr> NAMES a member (`Color.red`): the constant is looked up by the last
+	element of the receiver's spelling. For any other expression of enum type — a parameter `c: Color`, a field `obj.color` — the value is a run-time
+	quantity; taking "an enum-typed receiver" as sufficient emits the constant of whichever member shares the spelling (`def f(c: Color): return c.value`
+	with a member `c = 2` returns 2 for every argument) or fails with IndexError when none does — the output then depends on how a variable is spelled.
+	The decision function must therefore test that the receiver is reached through the class object (or through the member's declaration), not only
+	its type."""
+	from vlib.match import atoms as atoms_, inline_simple_calls
+	from vlib.norm import helper_closure
+	PY2CPP = 'rogw/tranp/implements/cpp/transpiler/py2cpp.py'
+	r = rep.rule(rule_id, 'Py2Cpp.is_relay_literalizer answers True for an enum-typed receiver only together with a test that the receiver is a member reference (its own receiver is a class object: type_is(type), or its declaration belongs to the enum)', floor=1)
+	pm_ = idx.mod(PY2CPP)
+	f = pm_.func('Py2Cpp.is_relay_literalizer')
+	if f is None:
+		r.skip('is_relay_literalizer', (PY2CPP, 1), 'Py2Cpp.is_relay_literalizer vanished')
+		return
+	members = helper_closure(f, 2)
+
+	def is_member_test(e: ast.AST, depth: int = 0) -> bool:
+		src = unparse(e)
+		if 'type_is(type)' in src.replace(' ', '') or '.receiver.receiver' in src or '.decl' in src:
+			return True
+		if depth < 2:
+			for c_ in ast.walk(e):
+				if isinstance(c_, ast.Call) and isinstance(c_.func, ast.Attribute) and isinstance(c_.func.value, ast.Name) and c_.func.value.id == 'self':
+					g = next((m_ for m_ in members if m_.name == c_.func.attr and m_ is not f), None)
+					if g is not None and any(is_member_test(x, depth + 1) for x in ast.walk(g.node) if isinstance(x, (ast.Return, ast.If))):
+						return True
+		return False
+
+	def mentions_enum(e: ast.AST) -> bool:
+		return any(isinstance(x, ast.Attribute) and x.attr == 'Enum' for x in ast.walk(e))
+
+	n_ = 0
+	for ret in [x for x in ast.walk(f.node) if isinstance(x, ast.Return) and x.value is not None]:
+		if isinstance(ret.value, ast.Constant) and ret.value.value is False:
+			continue
+		known = [(a, p_) for a, p_ in atoms_(f.node, ret)]
+		# the returned expression itself is part of the decision (`return A and B and C`)
+		parts = list(ret.value.values) if isinstance(ret.value, ast.BoolOp) and isinstance(ret.value.op, ast.And) else [ret.value]
+		conds = [a for a, p_ in known if p_] + [deref(f.node, x) if isinstance(x, ast.Name) else x for x in parts]
+		flat = []
+		for c_ in conds:
+			flat.extend(c_.values if isinstance(c_, ast.BoolOp) and isinstance(c_.op, ast.And) else [c_])
+		negs = [a for a, p_ in known if not p_]
+		# `if <not enum ...>: return False` in front: the enum test is known through a negated disjunction
+		enum_arm = any(mentions_enum(c_) for c_ in flat) or any(mentions_enum(a) for a in negs)
+		if not enum_arm:
+			continue
+		n_ += 1
+		ok = any(is_member_test(c_) for c_ in flat)
+		r.check(ok, f'enum-arm#{n_}', (PY2CPP, ret.lineno), f'is_relay_literalizer literalises `.value` / `.name` for EVERY receiver whose type is an enum (`{unparse(ret)[:90]}` under {[unparse(c_)[:50] for c_ in flat][:4]}): for a variable of enum type the constant is looked up by the spelling of the variable — `def f(c: Color): return c.value` emits the value of the member called `c` (2 for every argument; IndexError if there is none), `obj.color.name` emits "color"', unparse(ret)[:120])
+	if n_ == 0:
+		r.skip('is_relay_literalizer', f.where, 'no return of is_relay_literalizer is decided by an Enum test')
